@@ -34,3 +34,5 @@ pub use crate::yaml::{
     VerifAdvancePositions as AdvancePositions, VerifCompactEndPositions as CompactEndPositions,
     VerifEndPositions as EndPositions, VerifOpenPositions as OpenPositions,
 };
+
+pub use crate::util::simd::escape::find_json_escape;
